@@ -1625,7 +1625,18 @@ R"(
         auto member_visit_calls = make_member_visit_calls(members);
         if(member_visit_calls.empty())
         {
-            member_visit_calls.emplace_back("false");
+            // there are no members to move the cursor, do it here so it points
+            // to the end of the view after the visit like for any other level
+            return R"(
+    template<typename Visitor, typename Cursor>
+    SBEPP_CPP14_CONSTEXPR bool operator()(
+        ::sbepp::detail::visit_children_tag, Visitor&, Cursor& c) const
+    {
+        c.pointer() = (*this)(::sbepp::detail::get_level_tag{})
+                      + (*this)(::sbepp::detail::get_block_length_tag{});
+        return false;
+    }
+)";
         }
 
         res += fmt::format(
